@@ -1056,11 +1056,13 @@ class _FStringRule(SyntaxRule):
         self._check_fstring_contents(format_spec.children[1:], depth)
 
     def _check_fstring_expr(self, fstring_expr, depth):
-        if depth >= 2:
+        # PEP 701 (Python 3.12) allows one more level of nested format specs
+        # and backslashes in expressions.
+        if depth >= (2 if self._normalizer.version < (3, 12) else 3):
             self.add_issue(fstring_expr, message=self.message_nested)
 
         expr = fstring_expr.children[1]
-        if '\\' in expr.get_code():
+        if '\\' in expr.get_code() and self._normalizer.version < (3, 12):
             self.add_issue(expr, message=self.message_expr)
 
         children_2 = fstring_expr.children[2]
